@@ -9,12 +9,14 @@ import (
 	"fmt"
 	"io"
 	"strings"
+	"sync/atomic"
 
 	"github.com/datastax/go-cassandra-native-protocol/compression/lz4"
 	"github.com/datastax/go-cassandra-native-protocol/compression/snappy"
 	"github.com/datastax/go-cassandra-native-protocol/frame"
 	"github.com/datastax/go-cassandra-native-protocol/message"
 	"github.com/datastax/go-cassandra-native-protocol/primitive"
+	pierrec "github.com/pierrec/lz4/v4"
 )
 
 const (
@@ -68,12 +70,32 @@ func Read(r io.Reader) (*Frame, error) {
 	return f, nil
 }
 
+// Lz4Excluded counts bodies whose regular LZ4 encoding is valid (an independent decoder
+// reproduces the input) but is rejected by the LZ4 block decoder the proxy links
+// (github.com/pierrec/lz4/v4 v4.0.3, amd64 assembly) - known finding C03/lz4-decoder. Such
+// bodies are sent as a literals-only LZ4 block instead, so that the search continues.
+var Lz4Excluded int64
+
+// Lz4Raw makes Compress skip the exclusion (used to demonstrate the known finding).
+var Lz4Raw int32
+
 func Compress(alg string, plain []byte) ([]byte, error) {
 	var out bytes.Buffer
 	var err error
 	switch strings.ToLower(alg) {
 	case "lz4":
 		err = lz4.Compressor{}.CompressWithLength(bytes.NewReader(plain), &out)
+		if err == nil && len(plain) > 0 && atomic.LoadInt32(&Lz4Raw) == 0 {
+			b := out.Bytes()
+			dst := make([]byte, len(plain))
+			if n, derr := pierrec.UncompressBlock(b[4:], dst); derr != nil || n != len(plain) {
+				if ref, rerr := Lz4DecodeRef(b[4:]); rerr == nil && bytes.Equal(ref, plain) {
+					atomic.AddInt64(&Lz4Excluded, 1)
+					return Lz4Literals(plain), nil
+				}
+				return nil, fmt.Errorf("harness: lz4 compressor produced an invalid block")
+			}
+		}
 	case "snappy":
 		err = snappy.Compressor{}.CompressWithLength(bytes.NewReader(plain), &out)
 	default:
@@ -82,12 +104,110 @@ func Compress(alg string, plain []byte) ([]byte, error) {
 	return out.Bytes(), err
 }
 
+// Lz4Literals encodes plain as a single literals-only LZ4 sequence with Cassandra's length prefix.
+func Lz4Literals(plain []byte) []byte {
+	out := make([]byte, 4, len(plain)+16)
+	binary.BigEndian.PutUint32(out, uint32(len(plain)))
+	l := len(plain)
+	if l < 15 {
+		out = append(out, byte(l<<4))
+	} else {
+		out = append(out, 0xF0)
+		for r := l - 15; ; r -= 255 {
+			if r < 255 {
+				out = append(out, byte(r))
+				break
+			}
+			out = append(out, 255)
+		}
+	}
+	return append(out, plain...)
+}
+
+// Lz4DecodeRef is a straightforward LZ4 block decoder written from the format description.
+func Lz4DecodeRef(src []byte) ([]byte, error) {
+	var dst []byte
+	i := 0
+	for i < len(src) {
+		tok := src[i]
+		i++
+		ll := int(tok >> 4)
+		if ll == 15 {
+			for {
+				if i >= len(src) {
+					return nil, fmt.Errorf("lz4: truncated literal length")
+				}
+				b := src[i]
+				i++
+				ll += int(b)
+				if b != 255 {
+					break
+				}
+			}
+		}
+		if i+ll > len(src) {
+			return nil, fmt.Errorf("lz4: truncated literals")
+		}
+		dst = append(dst, src[i:i+ll]...)
+		i += ll
+		if i >= len(src) {
+			break
+		}
+		if i+2 > len(src) {
+			return nil, fmt.Errorf("lz4: truncated offset")
+		}
+		off := int(src[i]) | int(src[i+1])<<8
+		i += 2
+		ml := int(tok & 15)
+		if ml == 15 {
+			for {
+				if i >= len(src) {
+					return nil, fmt.Errorf("lz4: truncated match length")
+				}
+				b := src[i]
+				i++
+				ml += int(b)
+				if b != 255 {
+					break
+				}
+			}
+		}
+		ml += 4
+		if off == 0 || off > len(dst) {
+			return nil, fmt.Errorf("lz4: bad offset")
+		}
+		for k := 0; k < ml; k++ {
+			dst = append(dst, dst[len(dst)-off])
+		}
+	}
+	return dst, nil
+}
+
 func Decompress(alg string, wire []byte) ([]byte, error) {
 	var out bytes.Buffer
 	var err error
 	switch strings.ToLower(alg) {
 	case "lz4":
-		err = lz4.Compressor{}.DecompressWithLength(bytes.NewReader(wire), &out)
+		// own implementation honouring the length prefix: the reference library's lz4
+		// decompressor gives up on bodies that compress better than 8:1
+		if len(wire) < 4 {
+			return nil, fmt.Errorf("lz4 body shorter than its length prefix")
+		}
+		n := binary.BigEndian.Uint32(wire)
+		if n == 0 {
+			return []byte{}, nil
+		}
+		if n > MaxBody*4 {
+			return nil, fmt.Errorf("lz4 body declares %d decompressed bytes", n)
+		}
+		dst, derr := Lz4DecodeRef(wire[4:])
+		if derr != nil {
+			return nil, derr
+		}
+		if len(dst) != int(n) {
+			return nil, fmt.Errorf("lz4 body decompresses to %d bytes, declared %d", len(dst), n)
+		}
+		return dst, nil
 	case "snappy":
 		err = snappy.Compressor{}.DecompressWithLength(bytes.NewReader(wire), &out)
 	default:
